@@ -113,3 +113,28 @@ func TestGenC15Issued(t *testing.T) {
 	eder2, _ := x509.MarshalECPrivateKey(ek2)
 	issue("ecdsa4_selfsigned_sha384", eder2, "EC PRIVATE KEY", &ek2.PublicKey, nil, ek2, x509.ECDSAWithSHA384)
 }
+
+// TestGenC15ShortLived writes two self-signed certificates that are valid for one year around the
+// harness epoch (1 July 2022 - 1 July 2023): a history that runs long enough outlives them.
+func TestGenC15ShortLived(t *testing.T) {
+	if os.Getenv("VERIF_GEN_C15") != "3" {
+		t.Skip("generator only")
+	}
+	dir := filepath.Join("testdata", "c15")
+	issue := func(name string, keyDER []byte, keyType string, pub, priv interface{}) {
+		tmpl := &x509.Certificate{SerialNumber: big.NewInt(int64(len(name)) + 3000), Subject: pkix.Name{CommonName: name},
+			NotBefore: time.Date(2022, 7, 1, 0, 0, 0, 0, time.UTC), NotAfter: time.Date(2023, 7, 1, 0, 0, 0, 0, time.UTC),
+			KeyUsage: x509.KeyUsageDigitalSignature, BasicConstraintsValid: true}
+		der, err := x509.CreateCertificate(rand.Reader, tmpl, tmpl, pub, priv)
+		if err != nil {
+			t.Fatal(err)
+		}
+		_ = os.WriteFile(filepath.Join(dir, name+".cert.pem"), pem.EncodeToMemory(&pem.Block{Type: "CERTIFICATE", Bytes: der}), 0o664)
+		_ = os.WriteFile(filepath.Join(dir, name+".key.pem"), pem.EncodeToMemory(&pem.Block{Type: keyType, Bytes: keyDER}), 0o664)
+	}
+	ek, _ := ecdsa.GenerateKey(elliptic.P256(), rand.Reader)
+	eder, _ := x509.MarshalECPrivateKey(ek)
+	issue("ecdsa5_one_year", eder, "EC PRIVATE KEY", &ek.PublicKey, ek)
+	rk, _ := rsa.GenerateKey(rand.Reader, 2048)
+	issue("rsa3_one_year", x509.MarshalPKCS1PrivateKey(rk), "RSA PRIVATE KEY", &rk.PublicKey, rk)
+}
